@@ -14,7 +14,7 @@ DESCRIPTION = {
              "truncation, C0/C1/F5..FF) at drawn positions incl. 16-byte block edges, drawn chunkings, buffer alignments 0..15 for the native lib. "
              "Oracle: byte-range table of RFC 3629/Unicode 3-7 (cross-checked against bytes.decode) gives valid?, on-boundary?, first offending index; "
              "validate() results (valid, endsOnCodePoint, currentIndex, totalIndex) must equal it for every chunking (feeding stops at the first invalid "
-             "verdict).  Every generated case also runs on two validators of one implementation fed alternately.  Non-trivial = contains a multi-byte sequence crossing a chunk boundary or an ill-formed sequence; enumerated elements count once each."),
+             "verdict).  Every generated case also runs on two validators of one implementation fed alternately.  Non-trivial = contains a multi-byte sequence crossing a chunk boundary or an ill-formed sequence; enumerated elements count once each. Single chunks far beyond 64 KiB (140 000 / 300 000 octets) with nothing or an ill-formed sequence inserted at in-chunk offsets around 2^16, 2^17 (2^18) under five chunkings, per implementation."),
     "assumptions": [
         "behaviour after an invalid verdict without reset() is undocumented and not asserted",
         "native code compiled from the working tree's _utf8validator.c on each run; SIMD variants as enabled by the sandbox compiler",
